@@ -37,11 +37,13 @@
 package c10
 
 import (
+	"bytes"
 	"encoding/json"
 	"fmt"
 	"math"
 	"math/big"
 	"os"
+	"os/exec"
 	"sort"
 	"strconv"
 	"strings"
@@ -986,6 +988,44 @@ func TestC10(t *testing.T) {
 	}
 	if p := os.Getenv("VERIF_REPLAY"); p != "" {
 		replay(t, p)
+		return
+	}
+	// The sweep runs in a child process: the workers convert in parallel, and a conversion that corrupts shared state of
+	// the package can end the process with a Go runtime "fatal error" that nothing recovers. "Conversions never panic":
+	// such a death is reported as a violation of its own, not as a failure of the machinery.
+	if os.Getenv("VERIF_C10_CHILD") == "" {
+		cmd := exec.Command(os.Args[0], "-test.run=^TestC10$", "-test.timeout=0", "-test.count=1")
+		cmd.Env = append(os.Environ(), "VERIF_C10_CHILD=1")
+		cmd.Stdout = os.Stdout
+		var errBuf bytes.Buffer
+		cmd.Stderr = &errBuf
+		err := cmd.Run()
+		tail := errBuf.String()
+		for _, fatal := range []string{"fatal error: concurrent map writes", "fatal error: concurrent map read and map write", "fatal error: concurrent map iteration and map write"} {
+			if strings.Contains(tail, fatal) {
+				if len(tail) > 6000 {
+					tail = tail[:6000]
+				}
+				rep := ev.NewReporter("C10", "exploration")
+				rep.Violation("conversion-kills-the-process:"+strings.ReplaceAll(strings.TrimPrefix(fatal, "fatal error: "), " ", "-"), map[string]any{"what": "the sweep (" + fmt.Sprint(ev.Workers()) + " workers converting in parallel) ended with a Go runtime fatal error inside the package", "stderr": tail})
+				rep.Coverage["exhaustive"] = false
+				rep.Coverage["evaluations"] = 0
+				rep.Coverage["distinct_nontrivial"] = 0
+				rep.Coverage["rule"] = "none: the sweep did not finish, the process running it was ended by the Go runtime"
+				rep.Finish()
+				return
+			}
+		}
+		os.Stderr.WriteString(tail)
+		if ee, ok := err.(*exec.ExitError); ok {
+			ev.ExitCode = ee.ExitCode()
+			if ev.ExitCode != 1 {
+				ev.ExitCode = 2
+			}
+		} else if err != nil {
+			fmt.Println("ENGINE-ERROR: property=C10 cannot run the sweep in a child process:", err)
+			ev.ExitCode = 2
+		}
 		return
 	}
 	rep := ev.NewReporter("C10", "exploration")
